@@ -65,6 +65,11 @@ impl TreeSpec {
         if self.dirlike {
             v.push("conf.txtpp.d/a.txt.txtpp".to_string());
             v.push("sub/tpl.txtpp/c.txtpp".to_string());
+            // hard links: the same inode under two source names is two sources (two outputs)
+            if self.masks[0] & 1 == 1 {
+                v.push("sub/hl.txt.txtpp".to_string());
+                v.push("hl2.txtpp.md".to_string());
+            }
             // sibling directories whose names have another directory's name as a string prefix
             v.push("subx/a.txt.txtpp".to_string());
             v.push("sub/deeper/b.txtpp.txt".to_string());
@@ -86,7 +91,9 @@ impl TreeSpec {
             }
         }
         for s in self.sources() {
-            let body = if s == "a.txt.txtpp" && self.includes() {
+            let body = if s == "sub/hl.txt.txtpp" || s == "hl2.txtpp.md" {
+                "-TXTPP#write a.txt.txtpp\n".to_string()
+            } else if s == "a.txt.txtpp" && self.includes() {
                 format!("TXTPP#include sub/b.txt\n-TXTPP#write {s}\n")
             } else if s == "sub/b.txtpp.txt" && self.includes2() {
                 format!("TXTPP#after deep/c\n-TXTPP#write {s}\n")
@@ -119,6 +126,9 @@ impl TreeSpec {
         inp.to_string()
     }
     pub fn expected_output(&self, s: &str) -> Vec<u8> {
+        if s == "sub/hl.txt.txtpp" || s == "hl2.txtpp.md" {
+            return b"a.txt.txtpp\n".to_vec();
+        }
         if s == "a.txt.txtpp" && self.includes() {
             format!("sub/b.txtpp.txt\n{s}\n").into_bytes()
         } else {
@@ -189,6 +199,15 @@ impl Env {
             std::fs::create_dir_all(self.base().join(d)).unwrap();
         }
         write_tree(&self.base(), t);
+        // the two "hl" sources of the source-like-directory variant are hard links of a.txt.txtpp
+        let a = self.base().join("a.txt.txtpp");
+        for l in ["sub/hl.txt.txtpp", "hl2.txtpp.md"] {
+            let lp = self.base().join(l);
+            if lp.exists() && a.exists() && std::fs::read(&lp).ok() == std::fs::read(&a).ok() {
+                let _ = std::fs::remove_file(&lp);
+                std::fs::hard_link(&a, &lp).unwrap();
+            }
+        }
     }
     fn run(&self, inputs: &[String], recursive: bool, mode: &Mode, rel_base: bool) -> RunResult {
         let base = if rel_base { self.base().strip_prefix("/").unwrap().to_path_buf() } else { self.base() };
